@@ -50,8 +50,8 @@ CLAIMED = {
             "initial screen and covariance function are cut-points; A is an opaque matrix for the shift/shape obligations."),
     "C06": ("3 C06", "term identity (=> bit identity) of seeded ft_phase_screen, ft_sh_phase_screen and both infinite screens incl. two added rows, with a "
             "symbolic integer seed and symbolic parameters: the result after a history of interleaved operations (other instances with other or the "
-            "same seed, rows added on other instances, numpy.random.seed / global draws, FFT screens with other inner scale; programs of length <= 2 "
-            "quick / all pairs + triples thorough) equals the result in a history-free process, and a second reproduction after more interleaving "
+            "same seed, rows added on other instances - also BETWEEN the rows of the screen under test (live other objects) -, numpy.random.seed / "
+            "global draws, FFT screens with other inner scale; programs of length <= 2 quick / all pairs + triples thorough) equals the result in a history-free process, and a second reproduction after more interleaving "
             "equals the first; each history runs in its own process. Different seeds / unseeded calls read disjoint draws (not forced equal)",
             "stream model of numpy.random (documented seeding semantics); N = 2 grids; opaque content-named linear-algebra results."),
     "C07": ("3 C07", "ft_phase_screen with r0, L0, l0, delta symbolic and the draws injected through `seed`: linear and homogeneous in the draws "
@@ -76,7 +76,8 @@ CLAIMED = {
     "C10": ("4 C10", "angularSpectrum (any magnification), oneStepFresnel, twoStepFresnel (both the m!=1 and the ZeroDivisionError m==1 path), "
             "lensAgainst conserve sum|U|^2 d^2 (per-element unit-modulus lemmas with the physically expected stage scalars, then a chain "
             "query in the parameters) and are linear (linear-combination cut), for every complex field and every wavelength/spacing/distance "
-            "of either sign at N in {2,4,8} quick / up to 16 thorough; ft2/ift2 replaced by their C09 contract; monolithic exact-DFT cross-check at N=2", ""),
+            "of either sign at N in {2,4,8} quick / up to 16 thorough; power conserved in every call of a history of 11 calls whose geometries differ "
+            "in one parameter at a time (nothing carried over from an earlier geometry); ft2/ift2 replaced by their C09 contract; monolithic exact-DFT cross-check at N=2", ""),
     "C11": ("4 C11", "algebraic part only: z=0 returns the input; unit-magnification group law P(z2)oP(z1)=P(z1+z2), P(-z)oP(z)=id; "
             "m then 1/m recovers the input; lensAgainst = oneStepFresnel(U*lens); twoStepFresnel = two chained oneStepFresnel through z/(1-m) "
             "with output spacing d2; each also after a history of other calls; N in {2,4} quick / up to 8 thorough; "
@@ -86,7 +87,9 @@ CLAIMED = {
             "Noll row position, parity/sign rule, |m|<=n, n-|m| even, injectivity, totality, fresh result lists; phaseFromZernikes with symbolic "
             "coefficients = that linear combination; zernikeArray(list) = slices of zernikeArray(count); modes vanish outside the inscribed pupil; "
             "p2v and rms normalisations on concrete grids; makegammas: d/dx and d/dy of every Noll-normalised mode equal sum_j gamma[i,j] Z_j as a "
-            "polynomial identity in symbolic (x, y) over algebraic square roots (radial orders <= 3 quick / 5 thorough). NOT claimed: orthonormality "
+            "polynomial identity in symbolic (x, y) over algebraic square roots (radial orders <= 3 quick / 5 thorough); zernikeRadialFunc(n, m, r) for "
+            "symbolic r in [0,1] = the radial polynomial with exact rational coefficients for every (n, m) up to n = 30 quick / 60 thorough "
+            "(integer tables stay native int64 in the engine: a wrapping factorial table is seen). NOT claimed: orthonormality "
             "as the grid is refined (limit), float rounding of sqrt for j > 2^50",
             "mode grids are concrete (trigonometric values evaluated in floating point as the code does); gamma entries are exact algebraic numbers (float32 storage outside)."),
     "C14": ("5 C14", "circle(r,n,c,origin) is exactly the indicator of pixel centres within r of c on every feasible path (symbolic r>=0 and centre, "
@@ -110,8 +113,8 @@ CLAIMED = {
             "every path with non-empty slabs: exactly L layers, total Cn2, 5/3 height moment and 5/3 wind moment conserved, strengths >= 0; the slab-edge "
             "kernel found in the source has exactly L edges (linspace by construction; numpy.arange((hmax-hmin)/L) decided in Float64 for every double "
             "range); optimal_grouping with the random restart = ANY sorted distinct split set: exactly L layers (L=1 included), total Cn2, heights are "
-            "input heights in increasing order, cost no worse than the equal split (N=3 fully symbolic, N=4..6 irregular concrete heights with "
-            "symbolic strengths). NOT claimed: GCTM (scipy.optimize.minimize)",
+            "input heights in increasing order, cost no worse than the equal split (N=3 fully symbolic, N=4..5 irregular concrete heights with "
+            "symbolic strengths), also right after a call with another symbolic profile on the same heights (no cost carried over). NOT claimed: GCTM (scipy.optimize.minimize)",
             "numba's _Gjit executed as its Python source; paths with an empty slab (0/0) not examined."),
     "C19": ("5 C19", "calculate_structure_function on symbolic phase: entry j = mean squared difference at lag j*step along axis 0, 0 at lag 0 "
             "(numpy.empty = arbitrary values), ramp -> a^2 (j step)^2, quadratic in amplitude (shapes to 8x8 quick / 12x12 thorough, steps 1-4); "
@@ -122,7 +125,9 @@ CLAIMED = {
     "C20": ("5 C20", "for 55 public entry points (list in the evidence; foreign-kernel functions named as skipped) on symbolic arrays and every "
             "feasible path: every array argument term-identical after the call (shape, dtype tag, every element; nested list arguments of "
             "CovarianceMatrix included), a second call returns the same terms, results of two calls share no storage and a call made after "
-            "the first result was overwritten in place returns the same (memoised arrays are caught), batch results = single-item results; "
+            "the first result was overwritten in place returns the same (memoised arrays are caught), a call with the SAME argument objects "
+            "refreshed in place by the caller equals the call on new objects with those contents (identity-keyed caches are caught), batch "
+            "results = single-item results; "
             "gkl_fcom argument purity with arbitrary eigh outputs; replays run in a process forked from the pristine state", 
             "symbolic arrays stand for float64/complex128 arrays (numpy.asarray with a matching dtype aliases); float32 inputs are outside."),
     "C17": ("5 C17", "all converters of atmos_conversions and _astronomy: the six inverse pairs (explicit and default wavelength), "
